@@ -50,13 +50,14 @@ func c10Strata() []stratum {
 		}), 2},
 		{"huge-accounts", with(func(c *gen.LCfg) {
 			// more than 128 accounts asked for in one request
-			c.Accounts = manyAccounts(170)
+			c.Accounts = manyAccounts(1300)
 			c.Assets = []string{"USD"}
-			c.Depth, c.Fanout, c.MinStmts, c.MaxStmts, c.PAbsent, c.PRepeat, c.PLongSrc, c.PFunded, c.PWorld = 1, 170, 1, 2, 5, 3, 100, 90, 2
+			c.Ladder = true
+			c.Depth, c.Fanout, c.MinStmts, c.MaxStmts, c.PAbsent, c.PRepeat, c.PLongSrc, c.PFunded, c.PWorld, c.PVarAcct = 1, 1300, 1, 2, 5, 2, 100, 90, 2, 1
 		}), 1},
 		{"concat", with(func(c *gen.LCfg) {
-			c.Accounts = []string{"user", "userA", "a", "aB", "ab", "abT"}
-			c.Assets = []string{"USD", "AUSD", "BTC", "TC", "C"}
+			c.Accounts = []string{"user", "userA", "a", "aB", "ab", "abT", "a:b"}
+			c.Assets = []string{"USD", "AUSD", "BTC", "TC", "C", "b:USD"}
 			c.MultiAsset = true
 			c.MinStmts, c.MaxStmts, c.Depth, c.PSrcSeq, c.PWorld, c.PAbsent, c.POriginVar = 2, 5, 1, 45, 4, 3, 25
 		}), 1},
